@@ -57,7 +57,22 @@ def run(sc):
                 if sc.get('start_first'):
                     time.sleep(0.02)
         if not sc.get('start_first'):
+            # publications made before start() are outside the property ("published while the fabric runs"): they wait
+            # and go to whoever is subscribed when the threads start.  Only "never to a non-subscriber, never more than
+            # once per kind" is checked for them.
             af.start()
+            time.sleep(0.15)
+            got = [len(q) if not isinstance(q, LockingDeque) else len(q.deque) for q in queues]
+            pubs = {}
+            for op in sc['ops']:
+                if op[0] == 'pub':
+                    pubs[op[1]] = pubs.get(op[1], 0) + 1
+            for q in range(4):
+                bound = sum(pubs.get(s_, 0) for k in ('fifo', 'lifo') for s_, lst in reg[k].items() if q in lst)
+                if got[q] > bound:
+                    return False, 'queue %d received %d events, at most %d were published for its subscriptions' % (
+                        q, got[q], bound), 'subscribe:'
+            return True, ''
         t0 = time.time()
         while time.time() - t0 < 1.0:
             got = [len(q) if not isinstance(q, LockingDeque) else len(q.deque) for q in queues]
